@@ -144,8 +144,13 @@ func (l *Lexer) bracesToken(tok token.TokenType, literal string) token.Token {
 
 func (l *Lexer) illegalToken() token.Token {
 	c := l.char
-	l.tokenBegins()
-	l.readChar() // consume the illegal character
+
+	// at the end of the input there is no character to consume
+	if c != 0 {
+		l.tokenBegins()
+		l.readChar() // consume the illegal character
+	}
+
 	return l.newToken(token.ILLEGAL, string(c))
 }
 
@@ -603,6 +608,15 @@ func (l *Lexer) skipComment() {
 
 	l.isHTML = true
 
+	if l.char == 0 {
+		return // unterminated comment: the input ends here
+	}
+
 	l.readChar() // skip "}"
+
+	if l.char == 0 {
+		return
+	}
+
 	l.readChar() // skip "}"
 }
